@@ -37,8 +37,15 @@ pub trait DataInput {
 
     /// Read a vector of bytes with the specified length
     fn read_vec(&mut self, len: usize) -> Result<Vec<u8>> {
-        let mut buf = vec![0u8; len];
-        self.read_bytes(&mut buf)?;
+        // `len` usually comes from a length prefix in the stream: never allocate more than the
+        // input can actually deliver (a corrupt prefix must end in an error, not in a huge allocation)
+        const CHUNK: usize = 64 * 1024;
+        let mut buf = Vec::with_capacity(len.min(CHUNK));
+        while buf.len() < len {
+            let start = buf.len();
+            buf.resize(start + (len - start).min(CHUNK), 0);
+            self.read_bytes(&mut buf[start..])?;
+        }
         Ok(buf)
     }
 
